@@ -618,7 +618,7 @@ def corpus_families(tier, seed):
       wpt = "wpt-tests" in rel
       big = len(wt) > 100
       if wpt:
-        sel = k % 8 == seed % 8 if thorough else k % 16 == seed % 16
+        sel = k % 8 == seed % 8 if thorough else k % 32 == seed % 32
         if thorough or sel:
           spaces.append(g.DevSpace(rel + "/lines", fmt, lt))
           nfull += 1
@@ -627,21 +627,26 @@ def corpus_families(tier, seed):
         if thorough and sel:
           spaces.append(g.DevSpace(rel + "/words", fmt, wt))
       elif big and not thorough:
-        spaces.append(g.DevSpace(rel + "/lines", fmt, lt, values={"line": g.GENERIC}))
-        caps.append(f"{rel} ({len(lt)} lines, {len(wt)} words): line tokens with the boundary-value menu only, word tokens not deviated")
+        spaces.append(g.DevSpace(rel + "/lines", fmt, lt, values={"line": []}))
+        caps.append(f"{rel} ({len(lt)} lines, {len(wt)} words): line tokens with the structural menu only (delete, duplicate, swap, truncate), "
+                    "word tokens not deviated")
+      elif not thorough:
+        spaces.append(g.DevSpace(rel + "/lines", fmt, lt))
+        sel_pos = [i for i in range(len(wt)) if i % 4 == seed % 4]
+        spaces.append(g.DevSpace(rel + "/words", fmt, wt, positions=sel_pos))
+        caps.append(f"{rel}: the VERIF_SEED-selected quarter of the word tokens ({len(sel_pos)} of {len(wt)})")
       else:
         spaces.append(g.DevSpace(rel + "/lines", fmt, lt))
         spaces.append(g.DevSpace(rel + "/words", fmt, wt))
     note = f"{len(by.get(fmt, []))} bundled files; 0 and 1 deviation; "
-    if fmt == "vtt":
-      note += "every line and word token of the 4 ttconv files; "
-      if thorough:
-        note += "every line token of the 128 wpt-tests files; CAP: word tokens of the VERIF_SEED-selected eighth of the wpt-tests files"
-      else:
-        note += (f"CAP: of the 128 wpt-tests files the VERIF_SEED-selected sixteenth ({nfull} files) gets every line token deviated, the others are "
-                 "read unchanged; word tokens of wpt-tests files only in the thorough tier")
+    if fmt == "vtt" and thorough:
+      note += ("every line and word token of the 4 ttconv files; every line token of the 128 wpt-tests files; CAP: word tokens of the "
+               "VERIF_SEED-selected eighth of the wpt-tests files")
+    elif fmt == "vtt":
+      note += (f"every line token of the 4 ttconv files; CAP: of the 128 wpt-tests files the VERIF_SEED-selected 1/32 ({nfull} files) gets every line "
+               "token deviated, the others are read unchanged, their word tokens only in the thorough tier; " + "; ".join(caps))
     else:
-      note += "every line token and every word token of every file" + ("; CAP: " + "; ".join(caps) if caps else "")
+      note += "every line token of every file" + ("; every word token of every file" if thorough else "; CAP: " + "; ".join(caps))
     if spaces:
       fams.append(_union(f"dev[{fmt} corpus]", spaces, note))
   if by.get("stl"):
@@ -651,12 +656,12 @@ def corpus_families(tier, seed):
       if thorough:
         spaces.append(g.StlSpace(rel, data, 0, tf_bytes=True))
         continue
-      full = k % 4 == seed % 4
+      full = k % 8 == seed % 8
       nfull += full
       spaces.append(g.StlSpace(rel, data, 0, tf_bytes=False, only=None if full else "none"))
     note = f"{len(by['stl'])} bundled files; 0 and 1 deviation; every block-level deviation and cut (block boundary, +1, +64) of every file; "
     note += ("every GSI field, TTI field and TF byte of every file" if thorough else
-             f"CAP: GSI and TTI fields on the VERIF_SEED-selected quarter ({nfull} files), TF fields deviated as a whole; byte by byte and all files "
+             f"CAP: GSI and TTI fields on the VERIF_SEED-selected eighth ({nfull} files), TF fields deviated as a whole; byte by byte and all files "
              "only in the thorough tier")
     fams.append(_union("dev[stl corpus]", spaces, note))
   if by.get("ttml"):
